@@ -20,6 +20,7 @@ import Distill.Model.PathPattern
 import Distill.Model.Filters
 import Distill.Model.TextRender
 import Distill.Model.MediaRender
+import Distill.Model.Root
 namespace Distill.Slices
 open Distill Distill.Proto
 
@@ -491,6 +492,20 @@ def mediarenderSlice : P String := do
   | 7 => pure s!"H={optHex (tableOutput A abs absSet false el)} T={optHex (tableOutput A abs absSet true el)} U={urlsStr (tableImageURLs A abs absSet setURLs el)}"
   | _ => pure "error unknown-kind"
 
+/-- `rootselect isElem n tree*` (an element root: one tree; any other root: its children) →
+`err` or the ids of the element `Apply` goes on with and of the extractor's document element -/
+def rootselectSlice : P String := do
+  let isE ← bool
+  let n ← nat
+  let ts ← many n node
+  let r := match isE, ts with
+    | true, [t] => applyRoot t []
+    | true, _ => none
+    | false, ks => applyRoot (.other 0 3) ks
+  match r with
+  | none => pure "err"
+  | some e => pure s!"{e.id} {(extractorRoot e).id}"
+
 def outElP : P OutEl := do
   let c ← bool; let h ← str; let t ← str
   pure { content := c, html := h.toList, text := t.toList }
@@ -508,6 +523,7 @@ def dispatch (slice : String) : Option (P String) :=
   | "docoutput" => some docoutputSlice
   | "dedupe" => some dedupeSlice
   | "mediarender" => some mediarenderSlice
+  | "rootselect" => some rootselectSlice
   | "docfilters" => some docfilters
   | "tableclass" => some tableclass
   | "rootdomain" => some rootdomain
